@@ -13,6 +13,14 @@ CLAIMED = {
   "Bounded symbolic model checking of the real codec and range code: float<->int64 codec and prefix coding at full 64-bit width for all 64 shifts; splitInt64Range and termRange.Enumerate by loop cut (init + one arbitrary iteration + exit, so any number of iterations); bound adjustment of NewNumericRangeSearcher for all non-NaN floats; index-side terms and doc-value decoding. Every obligation is a z3 query over the SSA of the real functions; unsat = holds for all values.",
   "Outside: trip count/termination of Enumerate, the term dictionary and multi-term searcher (stubbed), geo scaling in float arithmetic, time.Time conversion of dates, -0/+0 treated by the total order (-0 below +0). Composition of the legs (index terms x split x enumerate x bounds) is an argument on paper. Trusted: go/ssa, z3, the engine's intrinsics (bytes.Compare/Equal, math.Float64bits).",
   "DESIGN.md section 5 C10, appendix C.8"),
+ "C19": (
+  "Bounded symbolic model checking of the real merge planner (plan/Plan, findLiveSizesAndEligibles, removeSegments, byLiveSizeDescending with sort.Sort from source): every list of n segments with symbolic sizes and every option setting in range, with the documented CalcBudget/ScoreSegments hooks returning arbitrary values on every call, gives a terminating, well-formed plan (tasks from the input, no segment twice, live sum below the maximum, no member at or above half of it), the same plan on a second run, and the one-step progress condition behind the boundedness clause.",
+  "Bounds: n <= 3 quick, n <= 4 thorough; sizes < 2^40. Outside: the default float scoring and budget staircase (replaced by arbitrary-value hooks, so the result is independent of them), convergence/boundedness over histories of plan-execute cycles (only its one-step progress condition is decided), n > 4. Non-termination would surface as an unwind-bound INCONCLUSIVE, not as a VIOLATION.",
+  "DESIGN.md section 5 C19"),
+ "C13": (
+  "Bounded symbolic model checking of the real FileSystemDirectory.Persist/fileName against a POSIX file model written in the harness: every prior file state (absent/shorter/equal/longer, symbolic content), every item up to the stated size in up to two writes, writer failure at every chunk boundary, cancellation, and (second harness) every placement of environment faults on open/write(short)/truncate/sync/close/remove. Success implies exact bytes and a flush after the last write; failure implies no file left.",
+  "The fsync and fault clauses are claims about the POSIX model (nothing in user space observes a missing flush; a failing fsync cannot be provoked natively), so PersistFaults counterexamples are reported without native confirmation; PersistExact counterexamples are replayed against a real temporary directory. Outside: kernel behaviour, flock, directory-entry durability (Persist does not sync the directory), Windows path.",
+  "DESIGN.md section 5 C13, appendix C.7"),
 }
 
 NA = {
